@@ -88,6 +88,78 @@ pub fn shapes<F: Fl>(n: usize, max_l: usize) -> Vec<Vec<(K, K)>> {
     out
 }
 
+/// Storage state of the model: per node (targets of its outbound list, sources of its inbound list).
+type St = Vec<(Vec<K>, Vec<K>)>;
+
+fn canon(st: &St) -> St {
+    let n = st.len();
+    // isomorphism invariant per node; only permutations that respect it are tried
+    let inv: Vec<(usize, usize, usize)> = (0..n).map(|u| (st[u].0.len(), st[u].1.len(), st[u].0.iter().filter(|v| **v as usize == u).count())).collect();
+    let mut nodes: Vec<usize> = (0..n).collect();
+    nodes.sort_by_key(|u| inv[*u]);
+    // groups of equal invariant occupy consecutive target positions
+    let mut best: Option<St> = None;
+    fn rec(pos: usize, nodes: &Vec<usize>, inv: &Vec<(usize, usize, usize)>, used: &mut Vec<bool>, perm: &mut Vec<usize>, st: &St, best: &mut Option<St>) {
+        let n = nodes.len();
+        if pos == n {
+            // perm[old] = new
+            let mut out: St = vec![(vec![], vec![]); n];
+            for old in 0..n {
+                out[perm[old]] = (st[old].0.iter().map(|v| perm[*v as usize] as K).collect(), st[old].1.iter().map(|v| perm[*v as usize] as K).collect());
+            }
+            if best.as_ref().map_or(true, |b| out < *b) {
+                *best = Some(out);
+            }
+            return;
+        }
+        // position `pos` must be filled by an unused node with the invariant of nodes[pos]
+        let want = inv[nodes[pos]];
+        for &u in nodes.iter() {
+            if !used[u] && inv[u] == want {
+                used[u] = true;
+                perm[u] = pos;
+                rec(pos + 1, nodes, inv, used, perm, st, best);
+                used[u] = false;
+            }
+        }
+    }
+    rec(0, &nodes, &inv, &mut vec![false; n], &mut vec![0; n], st, &mut best);
+    best.unwrap()
+}
+
+/// Connect-only histories reaching every adjacency shape with <= max_l edges
+/// **up to renaming of the nodes** (sound for sweeps that range over all
+/// roots, targets and filters and do not depend on node values). Enumerated on
+/// the storage model (connect appends to the source's outbound and the
+/// target's inbound list, which C03 establishes for the real code).
+pub fn shapes_iso(n: usize, max_l: usize) -> Vec<Vec<(K, K)>> {
+    let mut seen: HashSet<St> = HashSet::new();
+    let st0: St = vec![(vec![], vec![]); n];
+    seen.insert(canon(&st0));
+    let mut out: Vec<(Vec<(K, K)>, St)> = vec![(vec![], st0)];
+    let mut cur = 0;
+    while cur < out.len() {
+        let (h, st) = out[cur].clone();
+        cur += 1;
+        if h.len() >= max_l {
+            continue;
+        }
+        for u in 0..n {
+            for v in 0..n {
+                let mut s2 = st.clone();
+                s2[u].0.push(v as K);
+                s2[v].1.push(u as K);
+                if seen.insert(canon(&s2)) {
+                    let mut nh = h.clone();
+                    nh.push((u as K, v as K));
+                    out.push((nh, s2));
+                }
+            }
+        }
+    }
+    out.into_iter().map(|x| x.0).collect()
+}
+
 pub fn build_world<F: Fl>(vals: &[i8], conns: &[(K, K)]) -> World<F> {
     let w = World::<F>::with_vals(vals);
     for (i, (u, v)) in conns.iter().enumerate() {
@@ -304,9 +376,9 @@ pub fn oracle(asp: u32, m: &GModel, c: &GCase, sres: &SRes, trace: &Trace, dfs: 
                 }
             }
             if asp & A_DFS_ORDER != 0 {
-                let (pre, post) = dfs.get(&acc, r);
+                let (pre, post, complete) = dfs.get(&acc, r);
                 let set = if cfg.kind == Kind::Pre { pre } else { post };
-                if !set.contains(&seq) {
+                if *complete && !set.contains(&seq) {
                     let pos_ok = if cfg.kind == Kind::Pre { seq.first() == Some(&(r as K)) } else { seq.last() == Some(&(r as K)) };
                     return bad(
                         if !pos_ok {
@@ -463,6 +535,173 @@ pub struct GParams {
     /// cap on the number of distinct arcs for which all filter subsets are taken
     #[serde(default)]
     pub max_filter_arcs: usize,
+    /// enumerate shapes up to renaming of the nodes (value-independent searches only)
+    #[serde(default)]
+    pub iso: bool,
+    /// > 0: the large structured families (chains / cycles / fans of 2..=large
+    /// nodes plus every single extra edge) instead of the small shapes
+    #[serde(default)]
+    pub large: usize,
+}
+
+/// The large structured families: (family name, connect history).
+pub fn large_graphs(max_n: usize) -> Vec<(String, usize, Vec<(K, K)>)> {
+    let mut out = Vec::new();
+    for n in 2..=max_n {
+        let chain: Vec<(K, K)> = (0..n - 1).map(|i| (i as K, (i + 1) as K)).collect();
+        // chain plus every single extra edge, appended last and inserted first
+        for i in 0..n {
+            for j in 0..n {
+                let mut c = chain.clone();
+                c.push((i as K, j as K));
+                out.push((format!("chain{}+({},{})", n, i, j), n, c));
+                if i + 1 != j {
+                    let mut c = vec![(i as K, j as K)];
+                    c.extend(chain.iter().cloned());
+                    out.push((format!("({},{})+chain{}", i, j, n), n, c));
+                }
+            }
+        }
+        // cycle plus a chord between a few positions
+        let mut cyc = chain.clone();
+        cyc.push(((n - 1) as K, 0));
+        let picks: Vec<usize> = {
+            let mut p = vec![0, 1, n / 2, n - 1];
+            p.sort();
+            p.dedup();
+            p
+        };
+        for &i in &picks {
+            for &j in &picks {
+                let mut c = cyc.clone();
+                c.push((i as K, j as K));
+                out.push((format!("cycle{}+({},{})", n, i, j), n, c));
+            }
+        }
+        // fan-out and fan-in with an extra edge between a few positions
+        let fan: Vec<(K, K)> = (1..n).map(|i| (0, i as K)).collect();
+        let fan_in: Vec<(K, K)> = (1..n).map(|i| (i as K, 0)).collect();
+        for &i in &picks {
+            for &j in &picks {
+                let mut c = fan.clone();
+                c.push((i as K, j as K));
+                out.push((format!("fan{}+({},{})", n, i, j), n, c));
+                let mut c = fan_in.clone();
+                c.push((i as K, j as K));
+                out.push((format!("fanin{}+({},{})", n, i, j), n, c));
+            }
+        }
+    }
+    out
+}
+
+/// Configurations for the large graphs: the filter subsets are replaced by a
+/// few single-arc rejections (the extra edge, the first and a middle chain edge).
+fn configs_large(prop: &str, directed: bool, n: usize, root: K, conns: &[(K, K)]) -> Vec<(Cfg, Vec<Arc3>, &'static str)> {
+    let l = conns.len();
+    let arc = |i: usize| (conns[i].0, conns[i].1, (i + 1) as E);
+    let rev = |a: Arc3| (a.1, a.0, a.2);
+    let mut rejects: Vec<Vec<Arc3>> = vec![vec![]];
+    for i in [l - 1, 0, l / 2] {
+        let a = arc(i);
+        rejects.push(vec![a]);
+        rejects.push(vec![rev(a)]);
+        if !directed {
+            rejects.push(vec![a, rev(a)]);
+        }
+    }
+    rejects.dedup();
+    let picks: Vec<K> = {
+        let mut p = vec![0usize, n / 2, n - 1];
+        p.sort();
+        p.dedup();
+        p.into_iter().map(|x| x as K).collect()
+    };
+    // reuse the small-shape configuration generator with an empty arc list
+    // (no subsets), then attach the reject sets to the filter configurations
+    let base = configs(prop, directed, n, root, &[], &[]);
+    let mut v = Vec::new();
+    for (cfg, _, mode) in base {
+        if let Some(t) = cfg.target {
+            if !picks.contains(&t) {
+                continue;
+            }
+        }
+        if cfg.meth == Meth::Filter {
+            for r in &rejects {
+                v.push((cfg, r.clone(), mode));
+            }
+        } else {
+            v.push((cfg, vec![], mode));
+        }
+    }
+    v
+}
+
+pub fn large_sweep<F: Fl>(job: &Job, p: &GParams, out: &mut Out) {
+    let prop = job.property.as_str();
+    let graphs = large_graphs(p.large);
+    out.stats.max("large_graphs_total", graphs.len() as u64);
+    let mut dfs = DfsOrders::default();
+    for (gi, (name, n, conns)) in graphs.iter().enumerate() {
+        if gi % job.nshards != job.shard {
+            continue;
+        }
+        // the exact DFS-order oracle explodes on fans; they are for the searches only
+        if prop == "C10" && name.starts_with("fan") && *n > 7 {
+            continue;
+        }
+        out.stats.inc("shapes");
+        out.stats.max("max_nodes", *n as u64);
+        crate::progress::set_case(|| json!({"kind":"gsweep-large","flavour":F::NAME,"name":name,"n":n,"conns":conns}).to_string());
+        let val_sets: Vec<Vec<i8>> = if matches!(prop, "C06" | "C07" | "C09") {
+            vec![(0..*n).map(|k| k as i8).collect(), (0..*n).map(|k| (*n - k) as i8).collect(), vec![0; *n], (0..*n).map(|k| (k % 2) as i8).collect()]
+        } else {
+            vec![(0..*n).map(|k| k as i8).collect()]
+        };
+        let conns_t: Vec<(K, K)> = conns.iter().map(|(u, v)| (*v, *u)).collect();
+        for (vi, vals) in val_sets.iter().enumerate() {
+            let m = GModel::new(*n, F::DIRECTED, conns, vals);
+            let w = build_world::<F>(vals, conns);
+            let wt = if prop == "C08" { Some(build_world::<F>(vals, &conns_t)) } else { None };
+            let roots: Vec<K> = {
+                let mut r = vec![0usize, n / 2, n - 1];
+                r.sort();
+                r.dedup();
+                r.into_iter().map(|x| x as K).collect()
+            };
+            for root in roots {
+                for (cfg, reject, mode) in configs_large(prop, F::DIRECTED, *n, root, conns) {
+                    if vi > 0 && !matches!(cfg.kind, Kind::PfsMin | Kind::PfsMax) {
+                        continue;
+                    }
+                    crate::progress::tick();
+                    let c = GCase { n: *n, conns: conns.clone(), vals: vals.clone(), root, cfg, reject, mode: mode.to_string() };
+                    out.stats.inc("evaluations");
+                    match check_case::<F>(prop, &w, &m, &c, &mut dfs, wt.as_ref()) {
+                        Ok((sres, _)) => {
+                            out.stats.inc("nontrivial");
+                            if *n >= 17 {
+                                out.stats.inc("evaluations_on_17_or_more_nodes");
+                            }
+                            if out.stats.samples.len() < 2 && *n >= 18 {
+                                out.stats.sample(json!({"family": name, "case": c.cfg.describe(), "result": format!("{:?}", sres).chars().take(200).collect::<String>()}));
+                            }
+                        }
+                        Err((class, what)) => out.report(Violation {
+                            property: prop.into(),
+                            engine: "gsweep".into(),
+                            flavour: F::NAME.into(),
+                            class,
+                            what,
+                            case: json!({"kind":"gsweep","flavour":F::NAME,"case":c,"program":c.program(F::NAME)}),
+                            order: (conns.len() * 1000 + c.reject.len() * 10 + n) as u64,
+                        }),
+                    }
+                }
+            }
+        }
+    }
 }
 
 /// The configurations (cfg, reject-set, mode) a property sweeps for one shape and root.
@@ -470,7 +709,7 @@ pub fn configs(prop: &str, directed: bool, n: usize, root: K, arcs: &[Arc3], arc
     let mut v = Vec::new();
     let targets: Vec<K> = (0..n as K).filter(|t| *t != root).collect();
     let subs = subsets(arcs);
-    let mk = |kind, transpose, target, meth, res| Cfg { kind, transpose, target, meth, res };
+    let mk = |kind, transpose, target, meth, res| Cfg { kind, transpose, target, meth, res, alt: false };
     // the search properties are also swept transposed on the directed flavours (oracle: the reversed model)
     let subs_t = if directed { subsets(arcs_t) } else { vec![] };
     let passes: Vec<(bool, &Vec<Vec<Arc3>>)> = if directed && matches!(prop, "C04" | "C05" | "C06" | "C09" | "C10") { vec![(false, &subs), (true, &subs_t)] } else { vec![(false, &subs)] };
@@ -571,6 +810,10 @@ pub fn configs(prop: &str, directed: bool, n: usize, root: K, arcs: &[Arc3], arc
         }
         "C09" => {
             for kind in SEARCH_KINDS {
+                // a target configured beforehand must not matter to a cycle search
+                for t in 0..n as K {
+                    v.push((mk(kind, tr, Some(t), Meth::None, ResK::Cycle), vec![], ""));
+                }
                 v.push((mk(kind, tr, None, Meth::None, ResK::Cycle), vec![], ""));
                 v.push((mk(kind, tr, None, Meth::ForEach, ResK::Cycle), vec![], ""));
                 for s in subs {
@@ -591,6 +834,18 @@ pub fn configs(prop: &str, directed: bool, n: usize, root: K, arcs: &[Arc3], arc
         }
         _ => {}
     }
+    }
+    if matches!(prop, "C07" | "C10") {
+        // the builder calls in the other order (closure first, then transpose / target, then pre()/post())
+        let mut alts = Vec::new();
+        for (cfg, reject, mode) in &v {
+            if mode.is_empty() && (cfg.meth != Meth::None || cfg.transpose || cfg.target.is_some()) {
+                let mut c2 = *cfg;
+                c2.alt = true;
+                alts.push((c2, reject.clone(), ""));
+            }
+        }
+        v.extend(alts);
     }
     if matches!(prop, "C07" | "C10") {
         let mut extra = Vec::new();
@@ -677,8 +932,11 @@ pub fn sweep<F: Fl>(job: &Job, out: &mut Out) {
         return cmp_sweep::<F>(job, out);
     }
     let p: GParams = serde_json::from_value(job.params.clone()).expect("gsweep params");
+    if p.large > 0 {
+        return large_sweep::<F>(job, &p, out);
+    }
     let prop = job.property.as_str();
-    let all_shapes = shapes::<F>(p.n, p.max_l);
+    let all_shapes = if p.iso { shapes_iso(p.n, p.max_l) } else { shapes::<F>(p.n, p.max_l) };
     out.stats.max("shapes_total", all_shapes.len() as u64);
     let mut dfs = DfsOrders::default();
     let val_sets: Vec<Vec<i8>> = if prop == "C06" && p.val_range > 0 {
@@ -709,6 +967,10 @@ pub fn sweep<F: Fl>(job: &Job, out: &mut Out) {
             for root in 0..p.n as K {
                 for (cfg, reject, mode) in configs(prop, F::DIRECTED, p.n, root, &arcs, &arcs_t) {
                     if prop != "C06" && vi > 0 && !matches!(cfg.kind, Kind::PfsMin | Kind::PfsMax) {
+                        continue;
+                    }
+                    // node values break the renaming symmetry: no priority-first kinds on iso shapes
+                    if p.iso && matches!(cfg.kind, Kind::PfsMin | Kind::PfsMax) {
                         continue;
                     }
                     crate::progress::tick();
